@@ -377,6 +377,8 @@ func VH_C03_ReturnSelf()   { vhC03(vhDefReturnSelf()) }
 
 func VH_C03_ElidedActions() { vhC03(vhDefElidedActions()) }
 
+func VH_C03_NullableStar() { vhC03(vhDefNullableStar()) }
+
 func VH_C03_Canary() {
 	in := vhInput()
 	_, toks, err := vhRunImpl(vhDefLiteral(), in)
